@@ -50,9 +50,21 @@ AcctDiff(X, P) ==
 Diff(X, P, dup) ==
   IF Proj = "acct" THEN AcctDiff(X, P)
   ELSE LET d == LifeDiff(X, P) IN IF d # "ok" \/ ~dup THEN d ELSE AcctDiff(X, P)
-\* under the flip quirk only the sign of a short position is compared (its size is off the lattice)
-SamePos(X, P) == \A s \in Syms : X.pos[s] = P.pos[s] \/ (X.pos[s] < 0 /\ P.pos[s] < 0)
-DiffFlip(X, P, dup) == Diff([X EXCEPT !.pos = IF SamePos(X, P) THEN P.pos ELSE @], P, dup)
+\* under the flip quirk the size of a short position is off the lattice, and so is everything the position of
+\* that symbol becomes afterwards within the same call: the position of a symbol that went short during the
+\* call is not compared (balances, sums and order statuses are)
+RECURSIVE FlipSyms(_, _)
+FlipSyms(S, ids) ==
+  IF ids = <<>> THEN {}
+  ELSE LET id == Head(ids)  o == S.ord[id]  S1 == ExecOneQ(S, id, FALSE, TRUE)
+       IN (IF o.st = "A" /\ S1.pos[o.sym] < 0 THEN {o.sym} ELSE {}) \cup FlipSyms(S1, Tail(ids))
+Flipped(S, e) == CASE e.k = "exec" -> FlipSyms(IF S.ord[e.id].st = "A" /\ S.ord[e.id].typ # "MKT"
+                                                 THEN PriceEff(S, S.ord[e.id].sym, S.ord[e.id].p) ELSE S, <<e.id>>)
+                   [] e.k = "flush" -> FlipSyms(S, S.pending)
+                   [] OTHER -> {}
+DiffFlip(S, e, X, P, dup) == LET fs == Flipped(S, e) IN
+  IF fs = {} THEN Diff(X, P, dup)
+  ELSE Diff([X EXCEPT !.pos = [s \in Syms |-> IF s \in fs /\ (P.pos[s] < 0 \/ e.k = "flush") THEN P.pos[s] ELSE X.pos[s]]], P, dup)
 
 AcctChecks(P) ==
   IF ~NonNegativeOf(P) THEN "negative-balance"
@@ -94,23 +106,29 @@ EffQ(S, e, dr, fl) ==
     [] e.k = "price" -> PriceEff(Z(S), e.sym, e.p)
 R(v, k) == [v |-> v, k |-> k]
 \* compare the logged post-state with the intended effect; name the deviation when it is one of the quirks
-Both(S, e, P, pk) ==
+Both0(S, e, P, pk) ==
   LET tag == Tag(S, e)
       dup == IsDup(S, e)
       d == Diff(EffQ(S, e, FALSE, FALSE), P, dup)
       pc == IF pk THEN PostChecks(e.post, P) ELSE "ok"
   IN IF d = "ok" THEN (IF pc = "ok" THEN R("ok", "") ELSE R(tag \o ":" \o pc, ""))
      ELSE IF Diff(EffQ(S, e, TRUE, FALSE), P, dup) = "ok" THEN R("ok", e.k \o ":sell-sum-released-twice")
-     ELSE IF DiffFlip(EffQ(S, e, FALSE, TRUE), P, dup) = "ok" THEN R("ok", e.k \o ":position-flips-short")
-     ELSE IF DiffFlip(EffQ(S, e, TRUE, TRUE), P, dup) = "ok" THEN R("ok", e.k \o ":sell-sum-released-twice+position-flips-short")
+     ELSE IF DiffFlip(S, e, EffQ(S, e, FALSE, TRUE), P, dup) = "ok" THEN R("ok", e.k \o ":position-flips-short")
+     ELSE IF DiffFlip(S, e, EffQ(S, e, TRUE, TRUE), P, dup) = "ok" THEN R("ok", e.k \o ":sell-sum-released-twice+position-flips-short")
      ELSE R(tag \o ":" \o d, "")
+
+IsFlipClass(k) == k \in {x \o y : x \in {"exec", "flush"}, y \in {":position-flips-short", ":sell-sum-released-twice+position-flips-short"}}
+\* a logged non-negative value that is not on the lattice is a verdict of its own (unless the position went short)
+Both(S, e, P, pk) ==
+  LET b == Both0(S, e, P, pk) IN
+  IF Proj = "acct" /\ Len(e.post.off) > 0 /\ b.v = "ok" /\ ~IsFlipClass(b.k)
+  THEN R(e.k \o ":value-off-the-lattice:" \o e.post.off[1], "") ELSE b
 
 Judge(S, e, pk) ==
   LET P == FromLog(e.post) IN
   IF ~WellFormed(S) THEN R(e.k \o ":ill-formed-pre-state", "")
   ELSE IF e.exc # "none" THEN R(e.k \o ":raises:" \o e.exc, "")
   ELSE IF ~WellFormed(P) THEN R(e.k \o ":unknown-order-in-registries", "")
-  ELSE IF Len(e.post.off) > 0 /\ Proj = "acct" THEN R(e.k \o ":value-off-the-lattice:" \o e.post.off[1], "")
   ELSE IF e.k \in {"cancel", "exec"} /\ e.id \notin 1..Len(S.ord) THEN R(e.k \o ":unknown-order", "")
   ELSE IF e.k = "submit" /\ Proj = "acct" THEN
          LET o == OrderOf(e)
@@ -147,9 +165,7 @@ TStep == /\ verdict = "ok" /\ l <= Len(Ev(tid))
               /\ st' = FromLog(e.post)
               /\ pok' = ((e.k # "submit" \/ e.acc) /\ WellFormed(FromLog(e.post)) /\ PostChecks(e.post, FromLog(e.post)) = "ok")
          \* a short spot position is outside the domain of the reference account: the trace ends there
-         /\ l' = (IF Judge(PreOf(Ev(tid)[l]), Ev(tid)[l], PokOf(Ev(tid)[l])).k \in {e.k \o ":position-flips-short" : e \in {Ev(tid)[l]}}
-                    \cup {e.k \o ":sell-sum-released-twice+position-flips-short" : e \in {Ev(tid)[l]}}
-                  THEN Len(Ev(tid)) + 1 ELSE l + 1)
+         /\ l' = (IF IsFlipClass(Judge(PreOf(Ev(tid)[l]), Ev(tid)[l], PokOf(Ev(tid)[l])).k) THEN Len(Ev(tid)) + 1 ELSE l + 1)
          /\ UNCHANGED <<tid, hist>>
 TSpec == TInit /\ [][TStep]_tvars
 Finished == verdict # "ok" \/ l > Len(Ev(tid))
